@@ -61,6 +61,8 @@ class Scratch:
 
 def prepare_tree(tree: pathlib.Path, harness_files):
     touched = patch.apply_models(tree, VERIF / 'harness/verif_model.rs')
+    if os.environ.get('VERIF_NO_REPR') != '1':
+        patch.apply_layout(tree)
     (tree / 'src/verif_common.rs').write_text((VERIF / 'harness/verif_common.rs').read_text())
     lib = tree / 'src/lib.rs'
     lib.write_text(lib.read_text() + '\n#[cfg(kani)]\npub mod verif_common;\n')
